@@ -41,17 +41,23 @@ SubstCA(u, x, r) ==
 
 Sub1(u, x, r) == IF Naive THEN SubstNaive(u, x, r) ELSE SubstCA(u, x, r)
 
-(* apply a one-parameter lambda to an argument term *)
-App(lam, arg) == Sub1(lam.a[1], lam.p[1], arg)
-
-(* rename the parameter of f away from the free names of g before g is moved under it *)
-Away(f, g) == IF Naive \/ f.p[1] \notin FV(g) THEN f
-              ELSE RenameParam(f, f.p[1], Fresh(AllNames(f) \cup AllNames(g)))
-
 IsLam1(u) == u.k = "lam" /\ Len(u.p) = 1 /\ u.n = 0
-IsOp(u, op) == IsCallOf(u, op) /\ u.n = 2 /\ u.p = <<>> /\ IsLam1(u.a[3])
+(* the lambda of a sequence operator: one element parameter, every further parameter defaulted *)
+IsLamOp(u) == u.k = "lam" /\ Len(u.p) = 1 + u.n /\ \A i, j \in 1..Len(u.p) : i # j => u.p[i] # u.p[j]
+IsOp(u, op) == IsCallOf(u, op) /\ u.n = 2 /\ u.p = <<>> /\ IsLamOp(u.a[3])
 IsIdentity(lam) == IsLam1(lam) /\ lam.a[1] = Name(lam.p[1])
 IsTrue(lam) == lam.k = "lam" /\ lam.a[1] = BoolC(TRUE)
+
+(* rename the parameters of f away from the free names of g before g is moved under them *)
+RECURSIVE AwayFrom(_, _, _)
+AwayFrom(f, g, i) ==
+    IF i > Len(f.p) THEN f
+    ELSE IF f.p[i] \notin FV(g) THEN AwayFrom(f, g, i + 1)
+    ELSE AwayFrom(RenameParam(f, f.p[i], Fresh(AllNames(f) \cup AllNames(g))), g, i + 1)
+Away(f, g) == IF Naive THEN f ELSE AwayFrom(f, g, 1)
+(* f with its body replaced (all parameters and their defaults stay) *)
+(* (the pinned implementation rebuilt the lambda from its first parameter only: Naive) *)
+WithBody(f, b) == IF Naive THEN Lam1(f.p[1], b) ELSE [f EXCEPT !.a[1] = b]
 
 (* simultaneous binding of a called lambda's parameters: Python's rules, or no rule applies *)
 CallBindable(c) ==
@@ -82,6 +88,10 @@ Beta(c) ==
                  ELSE BetaAll(lam.a[1], lam.p, [i \in 1..np |-> Name(tmp[i])])
     IN IF Naive THEN BetaAll(lam.a[1], lam.p, args) ELSE BetaAll(body1, tmp, args)
 
+(* apply an operator lambda to an element term: the further parameters take their defaults *)
+App(lam, arg) == IF lam.n = 0 THEN Sub1(lam.a[1], lam.p[1], arg)
+                 ELSE Beta(T("call", "", 1, <<>>, <<lam, arg>>))
+
 ---------------------------------------------------------------------------
 (* root rules: the set of results of applying one rule at the root of u *)
 RootRw(u) ==
@@ -91,13 +101,13 @@ RootRw(u) ==
         {Fn("Select", <<u.a[2].a[2], Lam1(z, App(g, App(f, Name(z))))>>)} ELSE {}) \cup
     (IF IsOp(u, "Select") /\ IsOp(u.a[2], "SelectMany") THEN
         LET f == Away(u.a[2].a[3], u.a[3]) IN
-        {Fn("SelectMany", <<u.a[2].a[2], Lam1(f.p[1], Fn("Select", <<f.a[1], u.a[3]>>))>>)} ELSE {}) \cup
+        {Fn("SelectMany", <<u.a[2].a[2], WithBody(f, Fn("Select", <<f.a[1], u.a[3]>>))>>)} ELSE {}) \cup
     (IF IsOp(u, "SelectMany") /\ IsOp(u.a[2], "Select") THEN
         LET f == u.a[2].a[3]  g == u.a[3]  z == Fresh(AllNames(u)) IN
         {Fn("SelectMany", <<u.a[2].a[2], Lam1(z, App(g, App(f, Name(z))))>>)} ELSE {}) \cup
     (IF IsOp(u, "SelectMany") /\ IsOp(u.a[2], "SelectMany") THEN
         LET f == Away(u.a[2].a[3], u.a[3]) IN
-        {Fn("SelectMany", <<u.a[2].a[2], Lam1(f.p[1], Fn("SelectMany", <<f.a[1], u.a[3]>>))>>)} ELSE {}) \cup
+        {Fn("SelectMany", <<u.a[2].a[2], WithBody(f, Fn("SelectMany", <<f.a[1], u.a[3]>>))>>)} ELSE {}) \cup
     (IF IsOp(u, "Where") /\ IsOp(u.a[2], "Where") THEN
         LET f == u.a[2].a[3]  g == u.a[3]  z == Fresh(AllNames(u)) IN
         {Fn("Where", <<u.a[2].a[2], Lam1(z, BoolOp("and", <<App(f, Name(z)), App(g, Name(z))>>))>>)} ELSE {}) \cup
@@ -106,7 +116,7 @@ RootRw(u) ==
         {Fn("Select", <<Fn("Where", <<u.a[2].a[2], Lam1(z, App(g, App(f, Name(z))))>>), f>>)} ELSE {}) \cup
     (IF IsOp(u, "Where") /\ IsOp(u.a[2], "SelectMany") THEN
         LET f == Away(u.a[2].a[3], u.a[3]) IN
-        {Fn("SelectMany", <<u.a[2].a[2], Lam1(f.p[1], Fn("Where", <<f.a[1], u.a[3]>>))>>)} ELSE {}) \cup
+        {Fn("SelectMany", <<u.a[2].a[2], WithBody(f, Fn("Where", <<f.a[1], u.a[3]>>))>>)} ELSE {}) \cup
     (* identities *)
     (IF IsOp(u, "Select") /\ IsIdentity(u.a[3]) THEN {u.a[2]} ELSE {}) \cup
     (IF IsOp(u, "Where") /\ IsTrue(u.a[3]) THEN {u.a[2]} ELSE {}) \cup
